@@ -608,7 +608,9 @@ class ExecMixin(object):
             if c in ("OSError", "IOError", "EnvironmentError") and \
                     set(names) & {"OSError", "IOError", "EnvironmentError"}:
                 return True
-            nxt = self.EXC_PARENTS.get(c)
+            # classes of the package: their declared bases (the table below
+            # describes library classes and the tree's defaults only)
+            nxt = None if c in self.repo.classes else self.EXC_PARENTS.get(c)
             if nxt is None:
                 # internal exception classes: look at the class bases
                 ent = self.repo.classes.get(c)
